@@ -726,6 +726,49 @@ fn temp_path(path: &Path) -> PathBuf {
     ))
 }
 
+/// Verification-only step points (compiled only with `--cfg tree_sitter_verif`).
+///
+/// When the environment variable `TS_VERIF_CTL` names a control prefix, every
+/// call to [`verif::point`] writes the point's name to the FIFO `<prefix>.req`
+/// and blocks until an answer arrives on `<prefix>.ack`, so that an external
+/// scheduler can interleave, pause or kill concurrent loaders at exactly these
+/// places and decide when a waiting loader's timeout elapses. Without the
+/// variable the calls return immediately.
+#[cfg(tree_sitter_verif)]
+mod verif {
+    use std::io::{BufRead, BufReader, Write};
+
+    #[derive(PartialEq, Eq)]
+    pub enum Answer {
+        Go,
+        Timeout,
+    }
+
+    pub fn point(name: &str) -> Answer {
+        let Ok(prefix) = std::env::var("TS_VERIF_CTL") else {
+            return Answer::Go;
+        };
+        let Ok(mut req) = std::fs::OpenOptions::new()
+            .write(true)
+            .open(format!("{prefix}.req"))
+        else {
+            return Answer::Go;
+        };
+        let _ = writeln!(req, "{name}");
+        drop(req);
+        let Ok(ack) = std::fs::File::open(format!("{prefix}.ack")) else {
+            return Answer::Go;
+        };
+        let mut line = String::new();
+        let _ = BufReader::new(ack).read_line(&mut line);
+        if line.trim() == "timeout" {
+            Answer::Timeout
+        } else {
+            Answer::Go
+        }
+    }
+}
+
 /// RAII lock file guard. The lock file is created atomically via
 /// [`create_new`](`fs::OpenOptions::create_new`) and removed on drop.
 /// and removed on drop.
@@ -755,9 +798,15 @@ impl LockFile {
     /// Wait for an existing lock file to be removed by whoever created it.
     /// If the lock file persists beyond `timeout`, return [`LoaderError::LockFileTimeout`]
     fn wait_for_removal(path: &Path, timeout: Duration) -> LoaderResult<()> {
+        #[cfg(tree_sitter_verif)]
+        verif::point("lock:lost");
         let mut sleep_ms = 100;
         let deadline = Instant::now() + timeout;
         while path.exists() {
+            #[cfg(tree_sitter_verif)]
+            if verif::point("poll") == verif::Answer::Timeout {
+                return Err(LoaderError::LockFileTimeout(path.to_path_buf()));
+            }
             if Instant::now() > deadline {
                 return Err(LoaderError::LockFileTimeout(path.to_path_buf()));
             }
@@ -771,6 +820,8 @@ impl LockFile {
 
 impl Drop for LockFile {
     fn drop(&mut self) {
+        #[cfg(tree_sitter_verif)]
+        verif::point("unlock");
         match fs::remove_file(&self.path) {
             Ok(()) => {}
             Err(e) if e.kind() == std::io::ErrorKind::NotFound => {}
@@ -1133,6 +1184,8 @@ impl Loader {
         if !recompile {
             recompile = needs_recompile(&output_path, &paths_to_check)?;
         }
+        #[cfg(tree_sitter_verif)]
+        verif::point(if recompile { "checked:recompile" } else { "checked:fresh" });
 
         // Create a unique lock path based on the output path hash to prevent
         // interference when multiple processes build the same grammar (by name)
@@ -1168,6 +1221,8 @@ impl Loader {
 
             match LockFile::create(&lock_path)? {
                 Some(_lock) => {
+                    #[cfg(tree_sitter_verif)]
+                    verif::point("lock:won");
                     // We won the race, so compile with the lock.
                     let compile_wasm;
                     #[cfg(feature = "wasm")]
@@ -1203,6 +1258,8 @@ impl Loader {
                 None => LockFile::wait_for_removal(&lock_path, Duration::from_secs(30))?,
             }
         }
+        #[cfg(tree_sitter_verif)]
+        verif::point("before-load");
 
         #[cfg(feature = "wasm")]
         if let Some(wasm_store) = self.wasm_store.lock().unwrap().as_mut() {
@@ -1326,12 +1383,16 @@ impl Loader {
             display_build_cmd(&command);
         }
 
+        #[cfg(tree_sitter_verif)]
+        verif::point("compile:start");
         let output = command.output().map_err(|e| {
             LoaderError::Compiler(CompilerError {
                 error: e,
                 command: Box::new(command),
             })
         })?;
+        #[cfg(tree_sitter_verif)]
+        verif::point("compile:done");
 
         if self.verbose {
             if !output.stdout.is_empty() {
@@ -1351,6 +1412,8 @@ impl Loader {
                 let _ = fs::remove_file(&temp_output);
                 LoaderError::IO(IoError::new(e, Some(output_path)))
             })?;
+            #[cfg(tree_sitter_verif)]
+            verif::point("renamed");
             Ok(())
         } else {
             let _ = fs::remove_file(&temp_output);
